@@ -401,7 +401,7 @@ def unit_ops(ctx, ug, n_per_q):
     ops = []
     for n in ug.names + ["foo", "M", "kgs", "-x", "Kg", "radian"]:
         ops.append("single " + hx(n))
-    # x^0 for every table entry (defect: operator^= keeps the value), minimal input first
+    # x^0 for every table entry (was a defect: operator^= kept the value; fixed in /repo 6c2926b), minimal input first
     for n in (["kpc"] if "kpc" in ug.names else []) + ug.names:
         ops.append("compound " + hx(n + "^0"))
         ops.append("compound " + hx("K") + " " + hx(n + "^0"))
@@ -554,6 +554,11 @@ def run(ctx):
             ctx.branch("stage2:" + op.split()[0] + ":" + ml.split()[0])
         k = next((i for i, o in enumerate(stage2) if o.startswith("used")), 0)
         ctx.sample({"used_dump_printed_by_code": unhx(impl2[k].split()[1]) if impl2[k].startswith("ok") else impl2[k]})
+    # ---- HDF5 clause: replayable experiment only (thorough tier, or VERIF_C20_SNAP=1)
+    if ctx.thorough or os.environ.get("VERIF_C20_SNAP"):
+        snapshot_experiment(ctx)
+    else:
+        ctx.cov["snapshot_experiment"] = "thorough tier only"
     # coverage gate (thorough): every printer branch of the model must have been taken
     if ctx.thorough:
         need = ["yaml:A=1", "yaml:B=1", "yaml:stale=1", "yaml:reemit=1", "yaml:jump=1", "units:tosi-same", "units:tosi-cross",
@@ -564,6 +569,61 @@ def run(ctx):
             ctx.cov["coverage_gate"] = "insufficient: " + ",".join(missing)
         else:
             ctx.cov["coverage_gate"] = "all model branches taken"
+
+
+# ----------------------------------------------------------------------------- HDF5 snapshot experiment
+
+def snap_build():
+    """harness/c20_snap.cpp against the real writer/reader (needs the engine libraries and HDF5);
+    flags are taken from the scratch CMake tree.  Returns the executable or raises."""
+    vlib.full_binary(targets=("LegacyEngine",))
+    nin = open(os.path.join(vlib.FULL, "build.ninja"), encoding="utf-8").read()
+    mi = re.search(r"build test/CMakeFiles/testGadgetDensityGridWriter\.dir/testGadgetDensityGridWriter\.cpp\.o:.*?\n((?:  .*\n)+)", nin)
+    ml = re.search(r"build rundir/test/testGadgetDensityGridWriter:.*?\n((?:  .*\n)+)", nin)
+    if not mi or not ml:
+        raise RuntimeError("HDF5 test target not configured (no HDF5?)")
+    inc = re.search(r"INCLUDES = (.*)", mi.group(1)).group(1).split()
+    libs = []
+    for t in re.search(r"LINK_LIBRARIES = (.*)", ml.group(1)).group(1).split():
+        libs.append(os.path.join(vlib.FULL, t) if t.startswith("lib/") else t)
+    return vlib.build_harness("c20_snap", extra=[i for i in inc if i.startswith("-I")], libs=libs)
+
+
+def snap_ops(rng, n):
+    ops = []
+    for _ in range(n):
+        nc = [rng.choice([1, 2, 3, 4, 5, 8]) for _ in range(3)]
+        scale = rng.choice([1.0, 3.086e16, 1e-3, 10 ** rng.uniform(-6, 20)])
+        anchor = [rng.choice([0.0, -0.5 * scale, scale * rng.uniform(-2, 2)]) for _ in range(3)]
+        sides = [scale * rng.choice([1.0, 2.0, rng.uniform(0.1, 3.0), 1.0 / 3]) for _ in range(3)]
+        ops.append("snap %d %d %d %s %s %d" % (nc[0], nc[1], nc[2], " ".join(str(vlib.f2bits(a)) for a in anchor),
+                                              " ".join(str(vlib.f2bits(x)) for x in sides), rng.getrandbits(40)))
+    return ops
+
+
+def snapshot_experiment(ctx):
+    """search-only: nothing is proved about HDF5; a failure is reported with a replay"""
+    try:
+        exe = snap_build()
+    except Exception as e:      # not claimed: an environment without HDF5 does not fail the check
+        ctx.cov["snapshot_experiment"] = "not run: %s" % (str(e)[:300],)
+        return
+    ops = snap_ops(ctx.rng, ctx.budget(10, 150))
+    rc, out, err = vlib.run_exe(exe, "\n".join(ops) + "\n", timeout=1200)
+    ans, orc = vlib.split_oracle(out)
+    ctx.cov["snapshot_experiment"] = {"grids": len(ops), "answers": len(ans), "oracle_failures": len(orc), "rc": rc,
+                                      "max_rel_dev": max([float(a.split("maxrel=")[1]) for a in ans if "maxrel=" in a] or [0.0])}
+    for o in orc:
+        i = int(re.search(r"line=(\d+)", o).group(1)) - 1
+        ctx.violation("snapshot:roundtrip-differs", "HDF5 snapshot written by GadgetDensityGridWriter and read by CMacIonizeSnapshotDensityFunction differs: " + o,
+                      {"stream": "snapshot", "ops": [ops[i]], "oracle": o})
+    if rc != 0 or len(ans) != len(ops):
+        k = min(len(ans), len(ops) - 1)
+        ctx.violation("snapshot:impl-crash", "snapshot experiment stopped after %d of %d grids (rc %d): %s" % (len(ans), len(ops), rc, err[-400:]),
+                      {"stream": "snapshot", "ops": [ops[k]], "stderr": err[-1500:]})
+    for o in ops:
+        ctx.count()
+        ctx.branch("snapshot:grid")
 
 
 def readable(op):
@@ -578,6 +638,16 @@ def readable(op):
 
 
 def replay(ctx, path):
+    import json
+    obj = json.load(open(path))
+    if obj.get("stream") == "snapshot":
+        exe = snap_build()
+        rc, out, err = vlib.run_exe(exe, "\n".join(obj["ops"]) + "\n", timeout=600)
+        print("ops:\n  " + "\n  ".join(obj["ops"]))
+        print("implementation (rc=%d):\n%s%s" % (rc, out, err[-800:]))
+        bad = rc != 0 or "ORACLE" in out
+        print("REPRODUCED" if bad else "not reproduced")
+        return 1 if bad else 0
     gen_c20_units.generate()
     stats = Stats()
     return vlib.generic_replay(ctx, path, "c20", "drv_c20", cmp=make_cmp(stats))
@@ -585,22 +655,21 @@ def replay(ctx, path):
 
 MANIFEST = dict(
     category="proof",
-    text=("Lean theorems, all unbounded. YAML: parse_print — for EVERY dictionary (any depth, any nesting jumps; keys strictly increasing in std::string order = content of a std::map; "
-          "non-empty values) the parser applied to what print_contents prints returns the dictionary (induction over the sorted key list with the invariant 'no later key shares a longer "
-          "prefix with the printer's group stack than the key just printed', which needs that keys sharing a group prefix are contiguous in the map order: lcp_groups_mono; the printer's "
-          "shrinking-bound pop loop is modelled as written and shown to leave only harmless stale entries); print_parse_print / print_idempotent — for every token file the parser "
-          "accepts, print∘parse is a fixed point; parseText_printText and parseText_printUsedText — the same through the text lexer (comment stripping, ':' split, blank stripping, "
-          "indentation) for names/values without '#' and without blanks at the ends, incl. the used-values dump 'used # (original)' fed back. Units over exact rationals of the table's "
-          "doubles (table regenerated on every run by calling the real get_single_unit): units_table_consistent (kpc=1000pc, Myr=1e6yr, Gyr=1e3Myr, km=1000m, bar=1e5Pa, h=3600s exactly), "
-          "units_table_consistent_decimal (100cm=m, 1000g=kg, 1e7erg=J, 1e10angstrom=m on the shortest round-trip decimals and to 2^-52 on the doubles), units_table_same_dimensions, "
-          "units_table_dimensions, pow_spec (x^p = integer power for every p != 0, exponents times p), pow_zero_keeps_value / pow_zero_is_not_one (x^0 keeps the value: defect of Unit::operator^=, "
-          "kept strict by the oracle units-pow-zero), compound_is_product (get_unit grammar on tokens), toSI_toUnit / toUnit_toSI (inverse when the factor is non-zero). "
-          "Tie: the same Lean definitions compiled (drv_c20) vs the real YAMLDictionary/ParameterFile/UnitConverter on generated files and unit strings — printed text identical byte for byte, "
-          "dictionaries identical, unit values bit-identical at Float and within 2e-15 of the exact Rat model; oracles on the real code: parse(print d)=d, print idempotent, used-values dump "
-          "fed back reproduces every queried value to 1e-5 (6 printed digits), to_unit(to_SI)=id to 1e-14, compound = product of parts, table relations."),
-    note=("NOT modelled / NOT proved: the HDF5 snapshot write/read clause (no Lean model of HDF5); number formatting of the used-values dump (operator<< of double, taken from the real code, "
-          "compared by oracle to 1e-5); rounding of double arithmetic in unit conversions (measured: bit-exact rate of the Float model, max deviation of the exact model); try_conversion "
-          "(energy/wavelength/frequency) is modelled and compared but has no theorem. Trusted: Lean kernel + 3 standard axioms; hand model of YAMLDictionary.hpp/Unit.hpp/UnitConverter.hpp "
-          "(tied by the differential run); translator tools/gen_c20_units.py (names by regex, values by evaluation; every name is also compared through the `single` op); characters compared by "
-          "code point (ASCII generator); parser UB on a line indented less than the first level is modelled as rejection and not generated. Known defect flagged: Unit::operator^= with power 0."),
+    text=("Lean theorems, all unbounded. YAML (model = lexer, parser with its level/group stacks, printer with its group-stack loops as written, std::map = list sorted in std::string order): "
+          "parse_print: for EVERY dictionary with non-empty values, parsing what print_contents prints returns the dictionary (induction over the sorted key list; invariant: no later key "
+          "shares a longer prefix with the printer's stack than the key just printed; uses that keys sharing a group prefix are contiguous in map order, lcp_groups_mono; the shrinking-bound "
+          "pop loop only leaves harmless stale entries); print_parse_print / print_idempotent: for every token file the parser accepts, print-parse is a fixed point; parseText_printText, "
+          "parseText_printUsedText: the same through the text lexer for names/values without '#' and without blanks at the ends, incl. the used-values dump 'used # (original)' fed back. "
+          "Units over the exact rationals of the table's doubles (table regenerated every run by calling the real get_single_unit): units_table_consistent (kpc=1000pc, Myr=1e6yr, Gyr=1e3Myr, "
+          "km=1000m, bar=1e5Pa, h=3600s exactly), units_table_consistent_decimal (100cm=m, 1000g=kg, 1e7erg=J, 1e10angstrom=m on the printed decimals, 2^-52 on the doubles), "
+          "units_table_same_dimensions, units_table_dimensions, si_units_are_one, pow_spec (x^p = integer power for every integer p, exponents times p), compound_is_product, "
+          "toSI_toUnit / toUnit_toSI and the two cross-quantity rows of try_conversion (inverse when factor and value are non-zero). Tie: the same Lean definitions (drv_c20) vs the real "
+          "YAMLDictionary/ParameterFile/UnitConverter: printed text byte-identical, dictionaries identical, unit values bit-identical at Float and within 2e-15 of the exact model; oracles on "
+          "the real code: parse(print d)=d, print idempotent, used-values dump fed back reproduces every queried value to 1e-5, to_unit(to_SI)=id to 1e-14, compound=product, x^0=1, table relations."),
+    note=("NOT modelled, NOT proved: the HDF5 snapshot write/read clause (no Lean model of HDF5) - only a replayable experiment in the thorough tier (real GadgetDensityGridWriter -> real "
+          "CMacIonizeSnapshotDensityFunction on random Cartesian grids, cell values compared, search only). Also outside the theorems: number formatting of the used-values dump (operator<< of "
+          "double; compared by oracle to 1e-5) and rounding of the double arithmetic in conversions (measured: bit-exact rate of the Float model, max deviation of the exact model). "
+          "Trusted: Lean kernel + 3 standard axioms; hand model of YAMLDictionary.hpp / Unit.hpp / UnitConverter.hpp (tied by the differential run); translator tools/gen_c20_units.py "
+          "(names by regex, values by evaluation, every name re-compared through the `single` op); characters compared by code point (ASCII generator); parser UB on a line indented less "
+          "than the first level is modelled as rejection and not generated. Defect found by this check and fixed in /repo 6c2926b: Unit::operator^= kept the value for power 0."),
     technique="Lean 4 proof by induction over the sorted key list (printer stack invariant) and over token lists + generated unit table (translator by exhaustive evaluation) + differential correspondence with the real YAMLDictionary/ParameterFile/UnitConverter")
